@@ -124,3 +124,5 @@ Print Assumptions tie_center_shape.
 Print Assumptions tie_truncatechars_shape.
 Print Assumptions tie_divisibleby.
 Print Assumptions tie_filters_never_panic.
+
+From PV Require Export Tie.E2.
